@@ -1023,6 +1023,18 @@ impl Xot {
         if !self.text_consolidation {
             return false;
         }
+        // consolidating the place the node comes from may already have brought it
+        // to the requested place: its neighbours there are its own siblings then
+        let prev_node = if prev_node == Some(node) {
+            self.previous_sibling(node)
+        } else {
+            prev_node
+        };
+        let next_node = if next_node == Some(node) {
+            self.next_sibling(node)
+        } else {
+            next_node
+        };
         let added_text = if let Value::Text(t) = self.value(node) {
             Some(t.get().to_string())
         } else {
